@@ -5,6 +5,7 @@ import MdwModel.Driver.Stack
 import MdwModel.Driver.C15
 import MdwModel.Driver.C01
 import MdwModel.Driver.C19
+import MdwModel.Driver.LiveProps
 import MdwModel.Model.Records
 import Std.Data.HashMap
 open Mdw.Drv
@@ -42,6 +43,17 @@ def dispatch (prop : String) (kv : List (String × String)) : IO Res := do
   match prop with
   | "C01" => C01.run kv
   | "C19" => C19.run kv
+  | "C05" => match get kv "kind" with
+    | some "uctx" => return LiveProps.runUctx kv
+    | some "dump" => LiveProps.runLive05 kv
+    | _ => return .bad "C05 kind"
+  | "C04" => match get kv "kind" with
+    | some "pctx" => return LiveProps.runPctx kv
+    | some "dump" => LiveProps.runLive04 kv
+    | _ => return .bad "C04 kind"
+  | "C07" => match get kv "kind" with
+    | some "dump" => LiveProps.runLive07 kv
+    | _ => return .bad "C07 kind"
   | _ => return dispatchPure prop kv
 
 partial def loop (h : IO.FS.Stream) (stats : Std.HashMap String Stats) : IO (Std.HashMap String Stats) := do
